@@ -531,6 +531,12 @@ func c03ParseOnceOpt(g *Grammar, input string, prefix int, memo, refMemo bool, e
 				o.discard = "literal-parser-panic"
 				return
 			}
+			if panicInLibrary() {
+				// a panic inside the library on a premise-satisfying input is what this build
+				// of the grammar does with the input: an observation like any other
+				o.res, o.err, o.ctxErr = "PANIC "+clip(fmt.Sprint(r)), "-", "-"
+				return
+			}
 			panic(r)
 		}
 	}()
